@@ -483,7 +483,20 @@ func (w *World) DeliverMsgTx(msg sdk.Msg, sameTx bool) (res StepResult) {
 				res.PanicSite = panicSite(string(debug.Stack()))
 			}
 		}()
-		r, err := w.a.handler(cctx, msg)
+		h := w.a.handler
+		if w.viaApp || w.commit {
+			// as baseapp.runMsgs finds it: the module's route (module.go Route) must carry the
+			// message's own route name (msgs.go Route). The application's router itself cannot be
+			// asked on a sealed baseapp.
+			route := w.a.appModule().Route()
+			if route.Path() != msg.Route() || route.Handler() == nil {
+				res.Err = "unrecognized message route: " + msg.Route()
+				res.ErrCode = "no-route"
+				return
+			}
+			h = route.Handler()
+		}
+		r, err := h(cctx, msg)
 		if err != nil {
 			res.Err = err.Error()
 			res.ErrCode = errCode(err)
